@@ -38,6 +38,47 @@ func Check(v any) error {
 		return errors.New("jsonapi: ID field's api tag is empty")
 	}
 
+	// The wrapper reads and writes the ID as a string through the key "id".
+	if idField.Type.Kind() != reflect.String {
+		return errors.New("jsonapi: ID field is not a string")
+	}
+
+	if idField.Tag.Get("json") != "id" {
+		return errors.New("jsonapi: ID field's json tag is not \"id\"")
+	}
+
+	// Check the names of the fields
+	names := map[string]bool{"id": true}
+
+	for i := 0; i < value.NumField(); i++ {
+		sf := value.Type().Field(i)
+		apiTag := sf.Tag.Get("api")
+
+		if sf.Name == "ID" || (apiTag != "attr" && apiTag != "rel" && !strings.HasPrefix(apiTag, "rel,")) {
+			continue
+		}
+
+		name := sf.Tag.Get("json")
+		if name == "" {
+			return fmt.Errorf(
+				"jsonapi: field %q of type %q has no json tag",
+				sf.Name,
+				resType,
+			)
+		}
+
+		if names[name] {
+			return fmt.Errorf(
+				"jsonapi: json tag %q of field %q of type %q is already used",
+				name,
+				sf.Name,
+				resType,
+			)
+		}
+
+		names[name] = true
+	}
+
 	// Check attributes
 	for i := 0; i < value.NumField(); i++ {
 		sf := value.Type().Field(i)
@@ -76,7 +117,7 @@ func Check(v any) error {
 	for i := 0; i < value.NumField(); i++ {
 		sf := value.Type().Field(i)
 
-		if strings.HasPrefix(sf.Tag.Get("api"), "rel,") {
+		if sf.Tag.Get("api") == "rel" || strings.HasPrefix(sf.Tag.Get("api"), "rel,") {
 			s := strings.Split(sf.Tag.Get("api"), ",")
 
 			if len(s) < 2 || len(s) > 3 {
